@@ -58,6 +58,11 @@ PROPS = {
         "trusted_base": ["sort.Sort is modelled as a stable insertion sort (generated lists are homogeneous, so equal elements are indistinguishable)", "Go map iteration order is outside the model: maps are iterated sorted or have one key"],
         "assumptions": ["every render uses a freshly compiled template (C04 is separate)"],
     },
+    "C10": {
+        "suites": [{"name": "c10-chains", "proj": ["reference", "class", "output", "driver"]}],
+        "trusted_base": ["the walk of tagBlockNode.Execute / Super over the whole interpreter is tied to the model by correspondence; theorems cover the resolution functions (definition lookup, Super indexing, chain shape)"],
+        "assumptions": ["chains served from an in-memory loader; every template of each chain is rendered"],
+    },
     "C12": {
         "suites": [{"name": "c12-scope", "proj": ["reference", "class", "output", "driver"]}],
         "trusted_base": ["the whole-interpreter frame invariant (a construct leaves the frames below its own untouched) is decided by the reference-environment suite; the theorems cover the frame combinator, set, child contexts, key validation and the regenerated effect table"],
